@@ -326,6 +326,116 @@ Proof.
   - simpl. intros E. destruct (K_final _ _ K3 E).
 Qed.
 
+(** ** Handlers that leave the identity alone: ALL three tiers only if admin *)
+
+(** The frame condition: running the handler does not change what [isAdmin]
+    answers (in particular: it does not touch [c.User], [c.UserLevel],
+    [c.Path]). *)
+Definition preserves_adm (s : sset) (h : handler) : Prop :=
+  forall c, adm s (fst (h c)) = adm s c.
+
+Definition keeps_ctx (h : handler) : Prop := forall c, fst (h c) = c.
+
+Lemma keeps_preserves s h : keeps_ctx h -> preserves_adm s h.
+Proof. intros H c. rewrite H. auto. Qed.
+
+(** The guest and user handlers (the ones that run between the check and a
+    later tier) satisfy the frame condition. *)
+Definition frame_ok (s : sset) : Prop :=
+  (forall h, s_guest s = Some h -> preserves_adm s h) /\
+  (forall h, s_user s = Some h -> preserves_adm s h).
+
+Definition all_gated_ok (s : sset) (tr : list event) : Prop :=
+  forall t c, In (EServe t c) tr -> gated_ev (EServe t c) = true -> adm s c = true.
+
+Lemma K_no_gated x : K x -> forall e, In e (st_tr x) -> gated_ev e = false.
+Proof.
+  unfold K, first_gated. intros H e I. apply (find_none _ _ H). apply in_rev in I. auto.
+Qed.
+
+Lemma K_all_gated s x : K x -> all_gated_ok s (st_tr x).
+Proof. intros H t c I G. rewrite (K_no_gated x H _ I) in G. discriminate. Qed.
+
+Lemma try_tier_all s t x :
+  all_gated_ok s (st_tr x) -> adm s (st_c x) = true ->
+  all_gated_ok s (st_tr (res_st (try_tier s t x))) /\
+  ((forall h, tier_handler s t = Some h -> preserves_adm s h) ->
+   adm s (st_c (res_st (try_tier s t x))) = true).
+Proof.
+  intros A C. unfold try_tier. destruct (tier_handler s t) as [h|] eqn:Eh; [|split; auto].
+  destruct (h (st_c x)) as [c' r] eqn:Ec.
+  assert (G : all_gated_ok s (EServe t (st_c x) :: st_tr x)).
+  { intros t0 c0 [[= <- <-]|I] Hg; auto. apply (A t0 c0); auto. }
+  assert (P : (forall h0, Some h = Some h0 -> preserves_adm s h0) -> adm s c' = true).
+  { intros Hp. specialize (Hp h eq_refl (st_c x)). rewrite Ec in Hp. simpl in Hp. congruence. }
+  destruct r; simpl; auto.
+Qed.
+
+(** [ServeInternal] with frame-respecting guest and user handlers: EVERY
+    invocation of the guest, user and admin tiers sees an admin context. *)
+Theorem serve_internal_all_gated s c0 :
+  frame_ok s -> all_gated_ok s (fst (serve_internal s c0)).
+Proof.
+  intros [Fg Fu].
+  assert (FIN : forall tr (f : final), all_gated_ok s tr -> all_gated_ok s (fst (rev tr, f))).
+  { intros tr f A t c I. simpl in I. apply in_rev in I. apply A; auto. }
+  assert (FINK : forall x (f : final), K x -> all_gated_ok s (fst (rev (st_tr x), f))).
+  { intros x f Hk. apply FIN, K_all_gated; auto. }
+  unfold serve_internal, run, serve_internal_prog.
+  set (A := serve_auth_prog). set (D := default_admin).
+  cbn [exec].
+  set (x0 := St c0 []). assert (K0 : K x0) by reflexivity.
+  change (exec_stmt D A s (STry TAuth) x0) with (try_tier s TAuth x0).
+  pose proof (try_tier_K s TAuth x0 eq_refl K0) as K1.
+  destruct (try_tier s TAuth x0) as [x1|x1 f1]; [|apply FINK; auto].
+  assert (K2 : K (res_st (exec_stmt D A s (SIf CAuthSet [SSetup]) x1))).
+  { rewrite exec_if. cbn [eval_cond]. destruct (s_auth s) as [[h setup]|] eqn:EA; auto.
+    cbn [exec exec_stmt]. unfold run_setup. rewrite EA. destruct (setup (st_c x1)) as [c' e].
+    assert (K (St c' (ESetup (st_c x1) :: st_tr x1))) by (apply K_cons; auto).
+    destruct (negb (e =? 0)%N); auto. }
+  destruct (exec_stmt D A s (SIf CAuthSet [SSetup]) x1) as [x2|x2 f2]; [|apply FINK; auto].
+  simpl in K2.
+  change (exec_stmt D A s (STry TResource) x2) with (try_tier s TResource x2).
+  pose proof (try_tier_K s TResource x2 eq_refl K2) as K3.
+  destruct (try_tier s TResource x2) as [x3|x3 f3]; [|apply FINK; auto].
+  simpl in K3.
+  rewrite exec_if. cbn [eval_cond option_map].
+  destruct (is_admin default_admin s (st_c x3)) as [[|]|] eqn:EAd; cbn [option_map negb].
+  - assert (C3 : adm s (st_c x3) = true) by (unfold adm; rewrite EAd; auto).
+    pose proof (K_all_gated s x3 K3) as A3.
+    change (exec_stmt D A s (STry TGuest) x3) with (try_tier s TGuest x3).
+    destruct (try_tier_all s TGuest x3 A3 C3) as [A4 C4]. specialize (C4 Fg).
+    destruct (try_tier s TGuest x3) as [x4|x4 f4]; [|apply FIN; auto]. simpl in A4, C4.
+    change (exec_stmt D A s (STry TUser) x4) with (try_tier s TUser x4).
+    destruct (try_tier_all s TUser x4 A4 C4) as [A5 C5]. specialize (C5 Fu).
+    destruct (try_tier s TUser x4) as [x5|x5 f5]; [|apply FIN; auto]. simpl in A5, C5.
+    change (exec_stmt D A s (STry TAdmin) x5) with (try_tier s TAdmin x5).
+    destruct (try_tier_all s TAdmin x5 A5 C5) as [A6 _].
+    destruct (try_tier s TAdmin x5) as [x6|x6 f6]; [|apply FIN; auto].
+    cbn [exec exec_stmt]. apply FIN. auto.
+  - cbn [exec]. rewrite exec_if. cbn [eval_cond].
+    destruct (str_eqb (i_path (st_c x3)) [slash]).
+    + cbn [exec]. rewrite exec_if. cbn [eval_cond]. destruct (s_signin s) as [f|] eqn:ES.
+      * cbn [exec exec_stmt]. rewrite ES. destruct (f (st_c x3)) as [c' e].
+        apply (FINK (St c' (ESignIn (st_c x3) :: st_tr x3))). apply K_cons; auto.
+      * cbn [exec exec_stmt]. apply FINK; auto.
+    + cbn [exec exec_stmt st_c st_tr].
+      apply (FINK (St (st_c x3) (ERedirect :: st_tr x3))). apply K_cons; auto.
+  - apply FINK; auto.
+Qed.
+
+(** A non-admin request, handlers that keep the context: no guest, user or
+    admin tier runs at all. *)
+Corollary serve_internal_nonadmin_nothing s c0 :
+  frame_ok s ->
+  (forall c, adm s c = false) ->
+  forall e, In e (fst (serve_internal s c0)) -> gated_ev e = false.
+Proof.
+  intros F NA e I. destruct (gated_ev e) eqn:G; auto.
+  destruct e as [t c| | |]; try discriminate.
+  pose proof (serve_internal_all_gated s c0 F t c I G) as H. rewrite (NA c) in H. discriminate.
+Qed.
+
 (** [isAdmin] never gets stuck on the deployed default. *)
 Lemma is_admin_total s c : is_admin default_admin s c <> None.
 Proof.
